@@ -226,3 +226,30 @@ Proof.
   { subst cur. rewrite <- Z.div_add by lia. apply Z.div_le_mono; [lia|]. nia. }
   lia.
 Qed.
+
+(* C17 statements assembled from the inversion facts *)
+Lemma deposit_under_cap b bl now delta t b' bl' :
+  wf_sv b -> wf_bal bl -> 0 <= delta -> t <> IncBypassDepositLimit ->
+  increase_balance b bl now delta t = Ok (b', bl') ->
+  0 < ashares b (inc_a_inc b bl delta) -> b_dep_limit b <> U64_MAX -> b_asset_tag b <> ASSET_TAG_DRIFT ->
+  b_tas b' * b_asv b' / ONE < of_int (b_dep_limit b').
+Proof.
+  intros Hsv Hbl Hd Ht H. pose proof (increase_balance_inv _ _ _ _ _ _ _ Hsv Hbl Hd H) as F.
+  destruct F as [_ _ _ _ _ _ _ _ _ Fcap]. destruct t; try contradiction; exact Fcap.
+Qed.
+
+Lemma borrow_under_cap_and_utilisation b bl now delta t b' bl' :
+  wf_sv b -> wf_bal bl -> 0 <= delta -> t <> DecBypassBorrowLimit ->
+  decrease_balance b bl now delta t = Ok (b', bl') ->
+  (0 < lshares b (dec_l_inc b bl delta) -> b_bor_limit b <> U64_MAX ->
+     b_tls b' * b_lsv b' / ONE < of_int (b_bor_limit b')) /\
+  b_tls b' * b_lsv b' / ONE <= b_tas b' * b_asv b' / ONE.
+Proof.
+  intros Hsv Hbl Hd Ht H. pose proof (decrease_balance_inv _ _ _ _ _ _ _ Hsv Hbl Hd H) as F.
+  destruct F as [_ _ _ _ _ _ _ _ _ Fcap]. destruct t; try contradiction; exact Fcap.
+Qed.
+
+Lemma withdraw_all_utilisation b bl now b' bl' n :
+  wf_sv b -> wf_bal bl -> withdraw_all b bl now = Ok (b', bl', n) ->
+  b_tls b' * b_lsv b' / ONE <= b_tas b' * b_asv b' / ONE.
+Proof. intros Hsv Hbl H. exact (wa_util _ _ _ _ _ (withdraw_all_inv _ _ _ _ _ _ Hsv Hbl H)). Qed.
